@@ -91,8 +91,14 @@ func replayAny(o *Out, lines []string) {
 		case "cfg":
 			h = startHand(o, l, true)
 		case "op":
-			if h != nil {
+			if h != nil && len(f) == 3 && (f[1] == "seatante" || f[1] == "seatblinds") {
+				h.seatForced(f[1], int(atoi(f[2])))
+			} else if h != nil {
 				h.exec(parseOpLine(l))
+			}
+		case "noise":
+			if h != nil && len(f) > 1 {
+				h.noise(int(atoi(f[1])))
 			}
 		case "view":
 			if h != nil && len(f) > 1 {
